@@ -282,16 +282,169 @@ pub fn run_case(run: &Run, c: &Case, st: &mut Stats) -> Result<(), Failure> {
     Ok(())
 }
 
+/// "... behaves FROM THEN ON exactly like a newly created context": one context per shard lives through all cases of
+/// the shard (thousands of distinct word parts, learning commits included); after every terminating event the next
+/// word is typed in it and in a context created at that moment over a copy of the user directory.
+pub struct LongLived {
+    sb: Sandbox,
+    ctx: Ctx,
+    words: usize,
+    log: Vec<String>,
+    /// every step this context lived through: (word, terminator, fraction, next word) - the replay file
+    history: Vec<(String, u8, u16, String)>,
+}
+
+#[derive(Clone, Debug)]
+pub struct LCase {
+    w1: u32,
+    w2: u32,
+    term: u8,
+    frac: u16,
+}
+
+fn ll_words() -> &'static Vec<String> {
+    static W: std::sync::OnceLock<Vec<String>> = std::sync::OnceLock::new();
+    W.get_or_init(|| {
+        let p = gen::pools();
+        let mut w: Vec<String> = p.phonetic.clone();
+        // dictionary-guided bases, bare and followed by a suffix key: the shapes whose candidates are built from the
+        // per-context memo
+        for (i, (sp, _)) in gen::guided_bases().iter().enumerate() {
+            w.push(sp.clone());
+            w.push(format!("{sp}{}", p.suffix_keys[(i * 37) % p.suffix_keys.len()]));
+            if i % 4 == 0 {
+                w.push(format!("({sp}{})", p.suffix_keys[(i * 101) % p.suffix_keys.len()]));
+            }
+        }
+        w.retain(|t| !t.is_empty() && t.chars().all(|c| keys().has_char(c)));
+        w
+    })
+}
+
+fn mk_long_lived(shard: usize) -> LongLived {
+    let sb = Sandbox::new();
+    let mut o = Opts::parse("s");
+    o.english = shard & 1 != 0;
+    o.smart = shard & 2 != 0;
+    match shard % 8 {
+        5 => o = Opts::parse("Pfe"),
+        7 => o = Opts::parse("Sfvo"),
+        _ => {}
+    }
+    LongLived { ctx: Ctx::new(o, &sb).expect("context"), sb, words: 0, log: vec![], history: vec![] }
+}
+
+fn long_lived_case(c: &LCase, lo: &mut LongLived, st: &mut Stats) -> Result<(), Failure> {
+    let ws = ll_words();
+    let (w1, w2) = (&ws[c.w1 as usize % ws.len()], &ws[c.w2 as usize % ws.len()]);
+    ll_step(lo, w1, c.term, c.frac, w2, st)
+}
+
+fn ll_step(lo: &mut LongLived, w1: &str, term: u8, frac: u16, w2: &str, st: &mut Stats) -> Result<(), Failure> {
+    struct C {
+        term: u8,
+        frac: u16,
+    }
+    let c = C { term, frac };
+    let opts = lo.ctx.opts;
+    let log = lo.log.clone();
+    let words_before = lo.words;
+    lo.history.push((w1.to_string(), term, frac, w2.to_string()));
+    let history = lo.history.clone();
+    let case = || json!({"long_lived": {"opts": opts.letters(), "last_words": log, "words_typed_before_in_this_context": words_before, "history": history}});
+    let pf = |p: crate::driver::PanicInfo| Failure::new(panic_kind(&p), p.to_string(), case());
+    let r = lo.ctx.type_frontend(w1).map_err(pf)?;
+    let mut what = "finish";
+    match (c.term % 4, &r) {
+        (0, Some(r)) if r.choices() > 0 => {
+            lo.ctx.commit(((c.frac as usize) * r.choices()) >> 16).map_err(pf)?;
+            what = "commit";
+        }
+        (2, _) => {
+            lo.ctx.backspace(true).map_err(pf)?;
+            what = "ctrl-backspace";
+        }
+        (3, _) => {
+            let mut n = 0;
+            loop {
+                let b = lo.ctx.backspace(false).map_err(pf)?;
+                n += 1;
+                if b.is_empty() && !lo.ctx.ongoing() {
+                    break;
+                }
+                if n > 4 * w1.len() + 4 {
+                    return Err(Failure::new("backspaces-do-not-reach-idle", format!("{n} plain backspaces after {w1:?} did not reach the idle state"), case()));
+                }
+            }
+            what = "backspaces";
+        }
+        _ => lo.ctx.finish().map_err(pf)?,
+    }
+    if lo.ctx.ongoing() {
+        // the known finding (empty transliteration of a non-empty composition) cannot occur here: suggestions are on
+        return Err(Failure::new("flag-true-after-terminator", format!("after {w1:?} and {what} the long-lived context still reports an ongoing session"), case()));
+    }
+    lo.log.push(format!("{w1} [{what}]"));
+    if lo.log.len() > 6 {
+        lo.log.remove(0);
+    }
+    let copy = lo.sb.duplicate();
+    let fresh = Ctx::new(opts, &copy).map_err(pf)?;
+    let mut sel = 0u8;
+    for ch in w2.chars() {
+        let a = lo.ctx.ch(ch, sel).map_err(pf)?;
+        let b = fresh.ch(ch, sel).map_err(pf)?;
+        st.evals(1);
+        if a != b {
+            return Err(Failure::new(
+                "long-lived-context-differs-from-new",
+                format!("{} words into the life of this context ({}), after {w1:?} ended by {what}: typing {w2:?}, at {ch:?} the used context returns {} but a newly created context returns {}", lo.words, opts.letters(), a.short(), b.short()),
+                case(),
+            ));
+        }
+        if lo.ctx.ongoing() != fresh.ongoing() {
+            return Err(Failure::new("session-flag-differs-from-fresh", format!("typing {w2:?} at {ch:?}: used ongoing={} fresh ongoing={}", lo.ctx.ongoing(), fresh.ongoing()), case()));
+        }
+        sel = if a.lonely { 0 } else { a.sel.min(255) as u8 };
+    }
+    lo.ctx.finish().map_err(pf)?;
+    lo.words += 2;
+    lo.log.push(format!("{w2} [finish]"));
+    if lo.words == 400 {
+        st.label("long-lived-context-reached-400-words");
+    }
+    if lo.words > 100 {
+        st.nontrivial(hash_of(&(opts.letters(), w1, w2, c.term, lo.words)), || json!({"opts": opts.letters(), "word": w1, "ended_by": what, "next_word": w2, "words_before": lo.words}));
+    }
+    Ok(())
+}
+
+fn lcase_strategy() -> impl Strategy<Value = LCase> {
+    (any::<u32>(), any::<u32>(), 0u8..4, any::<u16>()).prop_map(|(w1, w2, term, frac)| LCase { w1, w2, term, frac })
+}
+
 pub fn run(run: &Run) {
     run.sharded("history-terminator-continuation", 16, run.tier.pick(500, 10000), 500, strategy, |_| (), |c: &Case, st, _| run_case(run, c, st));
     run.require_label("H-left-desynchronised-composition", 30);
     run.require_label("H-learned-a-selection", 10);
     run.require_label("terminated-by-backspaces", 30);
+    run.sharded("long-lived-context-vs-new", 16, run.tier.pick(260, 4000), 0, lcase_strategy, mk_long_lived, |c: &LCase, st, lo| long_lived_case(c, lo, st));
+    run.require_label("long-lived-context-reached-400-words", 8);
 }
 
 /// Replay: the concrete trace is split at `continuation_starts_at`; events before it run in the
 /// used context only, events after it in both.
 pub fn replay(run: &Run, case: &Value) -> Result<(), Failure> {
+    if let Some(ll) = case.get("long_lived") {
+        let sb = Sandbox::new();
+        let opts = Opts::parse(ll["opts"].as_str().unwrap_or_default());
+        let mut lo = LongLived { ctx: Ctx::new(opts, &sb).map_err(|p| Failure::new(panic_kind(&p), p.to_string(), case.clone()))?, sb, words: 0, log: vec![], history: vec![] };
+        let hist: Vec<(String, u8, u16, String)> = serde_json::from_value(ll["history"].clone()).unwrap_or_default();
+        for (w1, term, frac, w2) in &hist {
+            ll_step(&mut lo, w1, *term, *frac, w2, &mut Stats::new())?;
+        }
+        return Ok(());
+    }
     let mut st_replay = Stats::new();
     let opts = Opts::parse(case["opts"].as_str().unwrap_or_default());
     let events: Vec<Ev> = serde_json::from_value(case["events"].clone()).unwrap_or_default();
